@@ -27,6 +27,6 @@ def keep(c):
 def finding_key(c, r):
     return None
 
-LEVEL_TEXT = "placeholder"
-LEVEL_NOTE = "placeholder"
+LEVEL_TEXT = "Theorems (Props/C13.v): boosts never add or remove a candidate (answers with and without boosts contain the same commands at a limit that cuts nothing, NLP on or off), the accumulator's documents are the candidates whatever the boosts, a command without the boosted word keeps exactly its score. Tied by the engine correspondence (boost / no-boost pairs)."
+LEVEL_NOTE = "Partial: 'never lowers the score of a command that contains the word' needs float monotonicity and is checked per case only; the directory analyzer (AnalyzeDirectory) is not modelled yet. Trusted: Coq kernel; oracles; harness."
 TECHNIQUE = "Coq proof over the engine model + differential correspondence (vm_compute, bit-exact scores)"
